@@ -894,5 +894,6 @@ def run(ctx):
     grow_shape(ctx, g)
     collapse_shape(ctx, g)
     collapse_sites(ctx, g)
+    ctx.floor("chamber-indexed tables in collapse / make_skeleton", chamber_tables(ctx, "T4-chamber-table", ctx.body(M + "collapse"), g) + chamber_tables(ctx, "T4-chamber-table", ctx.body(M + "make_skeleton"), g), 3)
     for bi, t in mi:
         every_iteration_reaches(ctx, "T3-merge-every-step", ma, bi, "step-loop->op(&ds)", "some step of merge_all's table is skipped")
